@@ -5,7 +5,7 @@
    discipline of the method bodies; table generated from the source in gen/GenOrderFlow.v). *)
 From Coq Require Import ZArith List Bool Arith Lia Permutation Sorted.
 From Coq Require Import String.
-From PB Require Import lib.Perm lib.PermProofs C02.Model C02.Proofs C02.Proofs2D C02.OrderFlow C02.OrderFlowProofs C02.Sites gen.GenOrderFlow.
+From PB Require Import lib.Perm lib.PermProofs C02.Model C02.Proofs C02.Proofs2D C02.Wrapper2D C02.OptModel C02.OptProofs C02.OrderFlow C02.OrderFlowProofs C02.Sites gen.GenOrderFlow.
 Import ListNotations.
 Close Scope Z_scope.
 Open Scope string_scope.
@@ -66,7 +66,9 @@ Print Assumptions C02_determine_sorts.
 Theorem C02_wrapper_equivariant :
   forall (D : Type) (d0 : D)
          (body : list Z -> list D -> option (list D) -> list D * list (list D)),
-    (forall xs ys ws, length (fst (body xs ys ws)) = length xs /\
+    (forall xs ys ws, length ys = length xs ->
+                      match ws with None => True | Some w' => length w' = length xs end ->
+                      length (fst (body xs ys ws)) = length xs /\
                       Forall (fun p => length p = length xs) (snd (body xs ys ws))) ->
   forall (x : list Z) (y : list D) (w : option (list D)) (pi : list nat),
     NoDup x -> length y = length x ->
@@ -116,14 +118,8 @@ Qed.
 Print Assumptions C02_extended_order.
 
 (* 2-D: gathering rows and columns by any two permutations and then by the inverses built by
-   _inverted_sort gives the array back (layout (x_order[:,None], z_order[None,:]); the x-only and
-   z-only layouts are the cases pz = arange / px = arange).
-   NOT YET PROVED (kept as the full statement): C02_wrapper2_equivariant --
-     forall body2 returning n x m arrays, NoDup x, NoDup z, Permutation px (seq 0 n), Permutation pz (seq 0 m),
-       wrapper2 body2 (gather x px) (gather z pz) (gather2 y px pz) (option_map (gather2 . px pz) w)
-       = permute_out2 px pz (wrapper2 body2 x z y w).
-   The 2-D wrapper model is tied to the code by the exact correspondence and the oracle only. *)
-Theorem C02_inverse_2d_partial :
+   _inverted_sort gives the array back. *)
+Theorem C02_inverse_2d :
   forall (D : Type) (d0 : D) (a : list (list D)) (px pz : list nat) (n m : nat),
     length a = n -> Forall (fun row => length row = m) a ->
     Permutation px (seq 0 n) -> Permutation pz (seq 0 m) ->
@@ -131,7 +127,151 @@ Theorem C02_inverse_2d_partial :
 Proof.
   intros D d0 a px pz n m La Fa Hx Hz. exact (gather2_inverse D d0 a px pz n m (conj La Fa) Hx Hz).
 Qed.
-Print Assumptions C02_inverse_2d_partial.
+Print Assumptions C02_inverse_2d.
+
+(* THE 2-D EQUIVARIANCE.  _Algorithm2D.__init__ builds _sort_order/_inverted_order in one of the
+   four layouts None | x_order | (..., z_order) | (x_order[:,None], z_order[None,:]) (mk_order2 of
+   the two _determine_sorts results), utils._sort_array2d applies them (sort_array2d), and
+   _return_results un-sorts the baseline and every sort_keys entry.  For pairwise distinct x and
+   pairwise distinct z, INDEPENDENT permutations px, pz (either may be the identity: x only /
+   z only), any body that maps n x m arrays to n x m arrays:  permuting x, z, the data and the
+   optional per-point input consistently permutes every output the same way. *)
+Theorem C02_wrapper2_equivariant :
+  forall (D : Type) (d0 : D)
+         (body2 : list Z -> list Z -> list (list D) -> option (list (list D))
+                  -> list (list D) * list (list (list D))),
+    (forall xs zs ys ws,
+        rect D ys (length xs) (length zs) ->
+        match ws with None => True | Some w' => rect D w' (length xs) (length zs) end ->
+        rect D (fst (body2 xs zs ys ws)) (length xs) (length zs) /\
+        Forall (fun p => rect D p (length xs) (length zs)) (snd (body2 xs zs ys ws))) ->
+  forall (x z : list Z) (y : list (list D)) (w : option (list (list D))) (px pz : list nat),
+    NoDup x -> NoDup z -> rect D y (length x) (length z) ->
+    match w with None => True | Some w' => rect D w' (length x) (length z) end ->
+    Permutation px (seq 0 (length x)) -> Permutation pz (seq 0 (length z)) ->
+    wrapper2 D d0 body2 (gather 0%Z x px) (gather 0%Z z pz) (gather2 D d0 y px pz)
+             (option_map (fun w' => gather2 D d0 w' px pz) w)
+    = permute_out2 D d0 px pz (wrapper2 D d0 body2 x z y w).
+Proof.
+  intros D d0 body2 H x z y w px pz. exact (wrapper2_equivariant D d0 body2 H x z y w px pz).
+Qed.
+Print Assumptions C02_wrapper2_equivariant.
+
+Example C02_wrapper2_equivariant_nonvacuous :
+  let body2 := fun (xs zs : list Z) (ys : list (list Z)) (_ : option (list (list Z))) =>
+                 (tab2 Z (length xs) (length zs)
+                       (fun i j => (nth2 Z 0%Z ys i j + 100 * Z.of_nat i + 10 * Z.of_nat j)%Z), []) in
+  wrapper2 Z 0%Z body2 [3; 1; 2]%Z [20; 10]%Z [[1; 2]; [3; 4]; [5; 6]]%Z None
+  = ([[211; 202]; [13; 4]; [115; 106]]%Z, []) /\
+  wrapper2 Z 0%Z body2 [3; 1; 2]%Z [10; 20]%Z [[1; 2]; [3; 4]; [5; 6]]%Z None
+  = ([[201; 212]; [3; 14]; [105; 116]]%Z, []).
+Proof. vm_compute. split; reflexivity. Qed.
+
+(* ---------------------------------------------------------------- methods that skip the wrapper *)
+(* adaptive_minmax (1-D): weights sorted with _sort_order, edges written at [:kl] / [n-kr:], both
+   arrays un-sorted with _inverted_order.  For EVERY permutation of the supplied order both arrays
+   handed to the polynomial method are the correspondingly permuted ones, and after that method's
+   own sort the constrained points are the kl smallest / kr largest x.  (An implementation that
+   confuses the sort with its inverse satisfies this for involutions only.) *)
+Theorem C02_adaptive_minmax :
+  forall (D : Type) (d0 : D) (x : list Z) (w : list D) (pi : list nat) (kl kr : nat) (wl wr : D),
+    length w = length x ->
+    (gather d0 (fst (amm_weights D d0 x w kl kr wl wr)) (argsort x) = gather d0 w (argsort x) /\
+     gather d0 (snd (amm_weights D d0 x w kl kr wl wr)) (argsort x)
+     = edge_write D d0 (gather d0 w (argsort x)) kl kr wl wr) /\
+    (NoDup x -> Permutation pi (seq 0 (length x)) ->
+     amm_weights D d0 (gather 0%Z x pi) (gather d0 w pi) kl kr wl wr
+     = (gather d0 (fst (amm_weights D d0 x w kl kr wl wr)) pi,
+        gather d0 (snd (amm_weights D d0 x w kl kr wl wr)) pi)).
+Proof.
+  intros D d0 x w pi kl kr wl wr L. split.
+  - exact (amm_sorted_frame D d0 x w kl kr wl wr L).
+  - intros ND Hpi. exact (amm_equivariant D d0 x w pi kl kr wl wr ND L Hpi).
+Qed.
+Print Assumptions C02_adaptive_minmax.
+
+Theorem C02_adaptive_minmax_2d :
+  forall (D : Type) (d0 : D) (x z : list Z) (w : list (list D)) (px pz : list nat)
+         (k0 k1 k2 k3 : nat) (w0 w1 w2 w3 : D),
+    NoDup x -> NoDup z -> rect D w (length x) (length z) ->
+    Permutation px (seq 0 (length x)) -> Permutation pz (seq 0 (length z)) ->
+    amm_weights2 D d0 (gather 0%Z x px) (gather 0%Z z pz) (gather2 D d0 w px pz) k0 k1 k2 k3 w0 w1 w2 w3
+    = (gather2 D d0 (fst (amm_weights2 D d0 x z w k0 k1 k2 k3 w0 w1 w2 w3)) px pz,
+       gather2 D d0 (snd (amm_weights2 D d0 x z w k0 k1 k2 k3 w0 w1 w2 w3)) px pz).
+Proof.
+  intros D d0 x z w px pz k0 k1 k2 k3 w0 w1 w2 w3.
+  exact (amm2_equivariant D d0 x z w px pz k0 k1 k2 k3 w0 w1 w2 w3).
+Qed.
+Print Assumptions C02_adaptive_minmax_2d.
+
+(* optimize_extended_range + _override_x: edges from the sorted data, data and padded user weights
+   in the supplied order, the sub-fitter sorted by the extended order and un-sorted by
+   _inverted_sort(extended order), the middle cut out.  This computes EXACTLY what the standard
+   wrapper computes around "extend the sorted data, run the sub-method, cut the middle out"
+   (oer_body), hence is equivariant for every permutation, every side and added_window. *)
+Theorem C02_extended_range :
+  forall (D : Type) (d0 : D) (body : list Z -> list D -> option (list D) -> list D * list (list D))
+         (edge_l edge_r : list D -> list D) (addx_l addx_r : list Z -> list Z) (one : D)
+         (sd : side) (aw : nat),
+    (forall ys, length (edge_l ys) = aw) -> (forall ys, length (edge_r ys) = aw) ->
+    (forall fx ys ws, length (fst (body fx ys ws)) = length ys /\
+                      Forall (fun p => length p = length ys) (snd (body fx ys ws))) ->
+  forall (x : list Z) (y : list D) (w : option (list D)) (pi : list nat),
+    length y = length x -> match w with None => True | Some w' => length w' = length x end ->
+    oer D d0 body edge_l edge_r addx_l addx_r one sd aw x y w
+    = wrapper D d0 (oer_body D body edge_l edge_r addx_l addx_r one sd aw) x y w /\
+    (NoDup x -> Permutation pi (seq 0 (length x)) ->
+     oer D d0 body edge_l edge_r addx_l addx_r one sd aw (gather 0%Z x pi) (gather d0 y pi)
+         (option_map (fun w' => gather d0 w' pi) w)
+     = permute_out D d0 pi (oer D d0 body edge_l edge_r addx_l addx_r one sd aw x y w)).
+Proof.
+  intros D d0 body el er al ar one sd aw Hl Hr Hb x y w pi Ly Lw. split.
+  - exact (oer_is_wrapper D d0 body el er al ar one sd aw Hl Hr Hb x y w Ly Lw).
+  - intros ND Hpi. exact (oer_equivariant D d0 body el er al ar one sd aw Hl Hr Hb x y w pi ND Ly Lw Hpi).
+Qed.
+Print Assumptions C02_extended_range.
+
+(* _override_x: the inverse it builds for the extended order is the extended inverse *)
+Theorem C02_override_x_inverse : forall (sd : side) (s : list nat) (n aw : nat),
+  Permutation s (seq 0 n) ->
+  inverted_sort (extended_order sd s n aw) = extended_order sd (inverted_sort s) n aw.
+Proof. intros sd s n aw Hs. exact (ext_inverse sd s n aw Hs). Qed.
+Print Assumptions C02_override_x_inverse.
+
+(* _get_function (1-D; the 2-D one uses the formulas of individual_axes, see C02_individual_axes):
+   a sub-fitter class the object does not provide itself is constructed on the SUPPLIED x, and with
+   assume_sorted=True only if x was supplied ascending. *)
+Theorem C02_get_function : forall x : list Z, exists srt,
+  get_function_x x = (x, srt) /\ (srt = true -> determine_sorts x = None).
+Proof. exact get_function_x_eff. Qed.
+Print Assumptions C02_get_function.
+
+(* individual_axes: the axis values rebuilt from the sorted x/z and _inverted_order (three
+   non-trivial layouts) are the supplied x and z; the 1-D fitters (assume_sorted=False) sort each
+   row/column themselves; data - baseline, baseline += partial.  Baseline and every partial
+   baseline are equivariant under independent permutations of x and z, for every axes sequence. *)
+Theorem C02_individual_axes :
+  forall (D : Type) (d0 zero : D) (add sub : D -> D -> D)
+         (bodyx bodyz : list Z -> list D -> option (list D) -> list D * list (list D)),
+    (forall xs ys ws, length ys = length xs ->
+        match ws with None => True | Some w' => length w' = length xs end ->
+        length (fst (bodyx xs ys ws)) = length xs /\ Forall (fun p => length p = length xs) (snd (bodyx xs ys ws))) ->
+    (forall xs ys ws, length ys = length xs ->
+        match ws with None => True | Some w' => length w' = length xs end ->
+        length (fst (bodyz xs ys ws)) = length xs /\ Forall (fun p => length p = length xs) (snd (bodyz xs ys ws))) ->
+  forall (x z : list Z) (y : list (list D)) (px pz : list nat) (axes : list bool),
+    (exists srt, axis_values x z = (x, z, srt) /\
+                 (srt = true -> determine_sorts x = None /\ determine_sorts z = None)) /\
+    (NoDup x -> NoDup z -> rect D y (length x) (length z) ->
+     Permutation px (seq 0 (length x)) -> Permutation pz (seq 0 (length z)) ->
+     individual_axes D d0 zero add sub bodyx bodyz (gather 0%Z x px) (gather 0%Z z pz) (gather2 D d0 y px pz) axes
+     = permute_out2 D d0 px pz (individual_axes D d0 zero add sub bodyx bodyz x z y axes)).
+Proof.
+  intros D d0 zero add sub bodyx bodyz Hx Hz x z y px pz axes. split.
+  - exact (axis_values_eff x z).
+  - exact (individual_axes_equivariant D d0 zero add sub bodyx bodyz Hx Hz x z y px pz axes).
+Qed.
+Print Assumptions C02_individual_axes.
 
 (* ---------------------------------------------------------------- per-method order discipline *)
 (* SOUNDNESS of the reflective check: a row (source, explicit sort/un-sort sites, sink) extracted
@@ -158,9 +298,10 @@ Theorem C02_flow_table :
 Proof. vm_compute. repeat split. Qed.
 Print Assumptions C02_flow_table.
 
-(* The order-related statements of the wrappers and of the skip_sorting methods are the reviewed
-   ones (C02/Sites.v); PARTIAL: their discipline is reviewed + cross-validated dynamically, not
-   derived by the abstract interpretation. *)
+(* What is still pinned as reviewed text (C02/Sites.v): the three order-related statements of
+   custom_bc.  PARTIAL: custom_bc (sub-fitter on the sampled, ascending x_fit) and collab_pls
+   (no order-related statement; per-point arrays passed between sub-fitters) have no Gallina model;
+   they are covered by the metamorphic oracle only. *)
 Theorem C02_sites_pinned_partial : str_list_eqb gen_sites expected_sites = true.
 Proof. vm_compute. reflexivity. Qed.
 Print Assumptions C02_sites_pinned_partial.
